@@ -195,9 +195,16 @@ def run_mp_case(seed, idx):
             "max_messages": rng.choice([4, 10]),
             # source in the pool too: strax then inlines the whole chain and its savers into one ParallelSourcePlugin
             "inline": rng.random() < 0.5}
-    reg = mp.ALL_INLINE if case["inline"] else mp.ALL
+    # three shapes: nothing inlined (source outside the pool, all plugins 'process': inlining would start from the
+    # target); everything incl. the source inlined; inlining that starts from mprow, a plugin with a dependency
+    case["shape"] = rng.choice(["plain", "source_inlined", "rowstart"])
+    case["inline"] = case["shape"] != "plain"
+    if rng.random() < 0.35:
+        case["target"] = "mpwin"  # an overlap-window plugin behind the parallel chain (never inlined itself)
+    reg = {"plain": mp.ALL_WIN, "source_inlined": mp.ALL_INLINE_WIN, "rowstart": mp.ALL_ROWSTART_WIN}[case["shape"]]
     viol, cnt = [], {}
     out = mp.whole_run(rows)
+    out["mpwin"] = mp.whole_run_win(rows)
     d = hrun.mktemp("c01mp-")
     try:
         st = strax.Context(storage=[strax.DataDirectory(d)], register=reg,
